@@ -49,6 +49,8 @@ def dig(pe, x):
     from pyvc.pure import const_of, seq_lit
     t = to_int(x)
     c = const_of(t)
+    if c is None and hasattr(pe, 'facts'):
+        pe.facts.append(z3.Length(DIG(t)) >= 1)        # T2: decimal text is never empty
     return SeqV(seq_lit([ord(ch) for ch in str(c)]) if c is not None else DIG(t), 'bytes')
 
 
@@ -59,7 +61,7 @@ FUNCS = {'dig': dig, 'undig': lambda pe, s: IntV(UNDIG(s.t)),
 
 def dump_specs():
     mk = lambda name, params, ens, req='True': Spec(
-        'dump[%s]' % name, (F, 'dump'), params=params, requires=req, ensures=ens, raises={}, modifies=[], replay=lambda m, o: replay_tnet(m, o),
+        'dump[%s]' % name, (F, 'dump'), params=params, requires=req, ensures=ens + [('at least three bytes', 'len(result) >= 3')], raises={}, modifies=[], replay=lambda m, o: replay_tnet(m, o),
         hints=dict(funcs=FUNCS), note='one contract per scalar value type; containers by dump_list/dump_dict')
     return [
         mk('int', {'data': 'Int'}, [('layout', "result == frame(dig(data), b'#')")]),
@@ -91,6 +93,397 @@ def parse_spec():
                 note='scalar payload types # ! ~ , $ ; float (^) is not modelled; } and ] by parse_dict/parse_list')
 
 
+# ------------------------------------------------------------------------------------------------ containers: the induction step for lists
+# Values are abstract ids (Int).  enc(v) is *the function computed by dump* on the value v (dump is deterministic: T).  The ghost list is
+# (_g_len, _g_A): its elements are the ids _g_A[0.._g_len).  cat(k) is the concatenation of enc(_g_A[j]) for j in [k, _g_len).
+GA = z3.Const('_g_A', z3.ArraySort(z3.IntSort(), z3.IntSort()))
+GLEN = z3.Int('_g_len')
+ENC = z3.Function('enc', z3.IntSort(), IntSeq)
+CATG = z3.Function('cat', z3.IntSort(), IntSeq)
+
+
+def cat_facts():
+    """unfolding axioms of cat with triggers that do not feed themselves (cat(k) alone as the trigger of the unfolding is a matching loop:
+    each instance creates cat(k+1)); the length fact (3) is the consequence of (1) and |enc(v)| >= 3 and is checked as lemma[cat length]"""
+    k, v = z3.Int('k!cat'), z3.Int('v!enc')
+    return [GLEN >= 0,
+            z3.ForAll([k], z3.Implies(z3.And(0 <= k, k < GLEN), CATG(k) == z3.Concat(ENC(GA[k]), CATG(k + 1))),
+                      patterns=[z3.MultiPattern(CATG(k), ENC(GA[k]))]),
+            z3.ForAll([k], z3.Implies(k >= GLEN, CATG(k) == z3.Empty(IntSeq)), patterns=[CATG(k)]),
+            z3.ForAll([k], z3.Implies(z3.And(0 <= k, k < GLEN), z3.Length(CATG(k)) >= 3), patterns=[CATG(k)]),
+            # every dump output is at least `0:~` long: obligation `post[at least three bytes]` of every dump contract
+            z3.ForAll([v], z3.Length(ENC(v)) >= 3, patterns=[ENC(v)])]
+
+
+def cat_lemmas(repo):
+    k = z3.Int('k0')
+    return [('cat length: a non-exhausted tail holds at least one encoding',
+             [0 <= k, k < GLEN, CATG(k) == z3.Concat(ENC(GA[k]), CATG(k + 1)), z3.Length(ENC(GA[k])) >= 3], z3.Length(CATG(k)) >= 3)]
+
+
+LIST_FUNCS = dict(FUNCS, cat=lambda pe, k: SeqV(CATG(to_int(k)), 'bytes'), A=lambda pe, j: IntV(GA[to_int(j)]),
+                  enc=lambda pe, v: SeqV(ENC(to_int(v)), 'bytes'))
+
+
+def ghost_list(eng, name, st):
+    from pyvc.vals import ListV
+    st = st.clone()
+    st.pc += cat_facts()
+    eng.init_vals['_g_len'] = IntV(GLEN)
+    return ListV(GLEN, lambda i: IntV(GA[i if z3.is_expr(i) else z3.IntVal(i)]), tag='flist'), st
+
+
+def ghost_cat(eng, name, st):
+    st = st.clone()
+    st.pc += cat_facts()
+    eng.init_vals['_g_len'] = IntV(GLEN)
+    return SeqV(CATG(z3.IntVal(0)), 'bytes'), st
+
+
+def dump_is_enc(eng, recv, args, kw, st, n):
+    """dump(v) IS enc(v): enc names the function dump computes (T: dump is a deterministic function of the value; it does not raise on a
+    value of the supported types - obligation `raises` of every dump contract)."""
+    yield st, SeqV(ENC(to_int(args[0])), 'bytes')
+
+
+def join_enc(eng, sep, items, st, n):
+    """b''.join(enc(x) for x in ghost list) == cat(0): recognised structurally, element k of the mapped list must be enc(_g_A[k])"""
+    from pyvc.vals import ListV
+    k = z3.Int('k!join')
+    empty = (isinstance(sep, ConstV) and sep.py in (b'', '')) or (isinstance(sep, SeqV) and z3.is_true(z3.simplify(z3.Length(sep.t) == 0)))
+    if not empty:
+        raise Unsupported('join with a separator')
+    if isinstance(items, ListV) and z3.simplify(items.n).eq(z3.simplify(GLEN)):
+        e = items.get(k)
+        if isinstance(e, SeqV) and z3.simplify(e.t).eq(z3.simplify(ENC(GA[k]))):
+            yield st, SeqV(CATG(z3.IntVal(0)), 'bytes')
+            return
+    raise Unsupported('join of %r' % (items,))
+
+
+def parse_ih(eng, recv, args, kw, st, n):
+    """INDUCTION HYPOTHESIS for the elements (values of smaller depth): for every v and every r, parse(enc(v) ++ r) returns (v, r) and does
+    not raise.  Instance at this call site: v = _g_A[len(result)], r = cat(len(result) + 1); that the argument has this form is the
+    obligation pre[parse IH @ line]."""
+    extra = args[0]
+    res = eng.deref_list(st.loc['result'], st)
+    i = z3.Length(res.t) if isinstance(res, SeqV) else z3.IntVal(len(res.items))
+    v, r = GA[i], CATG(i + 1)
+    line = getattr(n, 'lineno', None)
+    eng.add_oblig('pre[parse IH @ line %s]' % line, 'pre', st, z3.And(i < GLEN, extra.t == z3.Concat(ENC(v), r)), line=line)
+    yield st, TupV([IntV(v), SeqV(r, 'bytes')])
+
+
+def list_specs():
+    dl = Spec('dump_list', (F, 'dump_list'), params={'data': ghost_list, 'encoding': 'None'},
+              ensures=[('layout: the element encodings in order, framed', "result == frame(cat(0), b']')"),
+                       ('at least three bytes', 'len(result) >= 3')],
+              raises={}, modifies=[], callees={'dump': dump_is_enc}, hints=dict(funcs=LIST_FUNCS, join=join_enc), replay=lambda m, o: replay_tnet(m, o),
+              note='for every list length and all element values')
+    pl = Spec('parse_list', (F, 'parse_list'), params={'data': ghost_cat, 'encoding': 'None'},
+              ensures=[('the elements in order, nothing else', 'len(result) == _g_len and forall(0, _g_len, lambda j: result[j] == A(j))')],
+              raises={}, modifies=[], callees={'parse': parse_ih}, replay=lambda m, o: replay_tnet(m, o),
+              loops={0: Loop(invariant=[('progress', '0 <= len(result) <= _g_len and extra == cat(len(result))'),
+                                        ('prefix', 'forall(0, len(result), lambda j: result[j] == A(j))')],
+                             variant='_g_len - len(result)')},
+              hints=dict(funcs=LIST_FUNCS),
+              note='induction step: given the hypothesis for the elements, the concatenation of their encodings parses to exactly the list; terminates')
+    return [dl, pl, parse_list_dispatch_spec(), Custom('cat', cat_lemmas, note='the derived length fact used as a trigger-safe axiom')]
+
+
+def framed_list(eng, name, st):
+    """data == dump_list(ghost list) ++ rest == digits(|cat(0)|) ++ b':' ++ cat(0) ++ b']' ++ rest (the layout proved for dump_list)"""
+    st = st.clone()
+    st.pc += cat_facts()
+    p = CATG(z3.IntVal(0))
+    n = z3.Length(p)
+    r = z3.Const('_g_rest', IntSeq)
+    t = z3.Unit(z3.IntVal(ord(']')))
+    d = eng.digits(n)
+    st.pc.extend(eng.digit_facts)
+    eng.digit_facts = []
+    for nm, v in (('_g_n', IntV(n)), ('_g_payload', SeqV(p, 'bytes')), ('_g_type', SeqV(t, 'bytes')), ('_g_rest', SeqV(r, 'bytes')), ('_g_len', IntV(GLEN))):
+        eng.init_vals[nm] = v
+    return SeqV(z3.Concat(d, z3.Unit(z3.IntVal(58)), p, t, r), 'bytes'), st
+
+
+def parse_list_callee():
+    return Spec('parse_list', (F, 'parse_list'), params={'data': 'Bytes', 'encoding': 'Opaque'},
+                requires='data == cat(0)', ensures=['len(result) == _g_len and forall(0, _g_len, lambda j: result[j] == A(j))'],
+                returns='IntList', hints=dict(funcs=LIST_FUNCS))
+
+
+def parse_list_dispatch_spec():
+    return Spec('parse[list]', (F, 'parse'), params={'data': framed_list},
+                ensures=[('rest: exactly one message is consumed', 'result[1] == _g_rest'),
+                         ('the list parses back to its elements in order', 'len(result[0]) == _g_len and forall(0, _g_len, lambda j: result[0][j] == A(j))')],
+                raises={}, modifies=[], callees={'parse_payload': payload_callee(), 'parse_list': parse_list_callee()},
+                replay=lambda m, o: replay_tnet(m, o), hints=dict(funcs=LIST_FUNCS),
+                note='parse(dump_list(L) ++ rest) == (L, rest): composition of the dump_list layout, the framing lemma and the parse_list induction step')
+
+
+# ------------------------------------------------------------------------------------------------ containers: the induction step for dictionaries
+# The ghost dictionary has _g_len items in iteration order: item k has the (text) key KEY(k) and the value id _g_A[k].
+# dcat(k) = concatenation over j in [k, _g_len) of  frame(KEY(j), b',') ++ enc(_g_A[j])
+KEY = z3.Function('key', z3.IntSort(), IntSeq)
+DCAT = z3.Function('dcat', z3.IntSort(), IntSeq)
+COMMA, COLON = z3.Unit(z3.IntVal(ord(','))), z3.Unit(z3.IntVal(ord(':')))
+
+
+def kframe(k):
+    return z3.Concat(DIG(z3.Length(KEY(k))), COLON, KEY(k), COMMA)
+
+
+def dcat_facts():
+    k, v, a, b, j = z3.Int('k!dcat'), z3.Int('v!enc'), z3.Int('a!key'), z3.Int('b!key'), z3.Int('j!key')
+    return [GLEN >= 0,
+            z3.ForAll([k], z3.Implies(z3.And(0 <= k, k < GLEN), DCAT(k) == z3.Concat(kframe(k), ENC(GA[k]), DCAT(k + 1))),
+                      patterns=[z3.MultiPattern(DCAT(k), ENC(GA[k]))]),
+            z3.ForAll([k], z3.Implies(k >= GLEN, DCAT(k) == z3.Empty(IntSeq)), patterns=[DCAT(k)]),
+            z3.ForAll([k], z3.Implies(z3.And(0 <= k, k < GLEN), z3.Length(DCAT(k)) >= 6), patterns=[DCAT(k)]),
+            z3.ForAll([v], z3.Length(ENC(v)) >= 3, patterns=[ENC(v)]),
+            # domain of the property: the keys of a dictionary are pairwise distinct, and 7-bit text (dump_dict encodes them as ascii)
+            z3.ForAll([a, b], z3.Implies(z3.And(0 <= a, a < b, b < GLEN), KEY(a) != KEY(b)), patterns=[z3.MultiPattern(KEY(a), KEY(b))]),
+            z3.ForAll([k, j], z3.Implies(z3.And(0 <= k, k < GLEN, 0 <= j, j < z3.Length(KEY(k))), z3.And(KEY(k)[j] >= 0, KEY(k)[j] < 128)),
+                      patterns=[KEY(k)[j]])]
+
+
+def dcat_lemmas(repo):
+    k = z3.Int('k0')
+    return [('dcat length: a non-exhausted tail holds at least one key frame and one encoding',
+             [0 <= k, k < GLEN, DCAT(k) == z3.Concat(kframe(k), ENC(GA[k]), DCAT(k + 1)), z3.Length(ENC(GA[k])) >= 3, z3.Length(DIG(z3.Length(KEY(k)))) >= 1],
+             z3.Length(DCAT(k)) >= 6)]
+
+
+class JoinListV(object):
+    """a list of byte strings that is only appended to and joined: (number of elements, their concatenation) - exact for these two operations"""
+    def __init__(self, n, flat):
+        self.n, self.flat = n, flat
+
+    def __repr__(self):
+        return 'JoinListV(%s)' % self.n
+
+
+class MapV(object):
+    """a dict keyed by text: domain and value arrays over key sequences, and the (ghost) number of item assignments performed"""
+    def __init__(self, dom, val, cnt):
+        self.dom, self.val, self.cnt = dom, val, cnt
+
+    def __repr__(self):
+        return 'MapV(%s)' % self.cnt
+
+
+DomSort = z3.ArraySort(IntSeq, z3.BoolSort())
+ValSort = z3.ArraySort(IntSeq, z3.IntSort())
+
+
+def _deref(pe, x):
+    from pyvc.vals import RefV
+    if isinstance(x, RefV) and x.kind == 'list' and hasattr(pe, 'st'):
+        return pe.st.heap[(x.id, 'val')]
+    return x
+
+
+def flat_of(pe, x):
+    from pyvc.vals import PyListV
+    x = _deref(pe, x)
+    if isinstance(x, JoinListV):
+        return SeqV(x.flat, 'bytes')
+    if isinstance(x, PyListV) and all(isinstance(i, SeqV) for i in x.items):
+        return SeqV(z3.Concat(*[i.t for i in x.items]) if len(x.items) > 1 else (x.items[0].t if x.items else z3.Empty(IntSeq)), 'bytes')
+    if isinstance(x, SeqV):
+        return SeqV(z3.Empty(IntSeq), 'bytes') if z3.is_true(z3.simplify(z3.Length(x.t) == 0)) else x
+    raise Unsupported('flat() of %r' % (x,))
+
+
+DICT_FUNCS = dict(LIST_FUNCS, dcat=lambda pe, k: SeqV(DCAT(to_int(k)), 'bytes'), key=lambda pe, k: SeqV(KEY(to_int(k)), 'str'),
+                  flat=flat_of,
+                  mcount=lambda pe, m: IntV(_deref(pe, m).cnt),
+                  mhas=lambda pe, m, k: BoolV(z3.Select(_deref(pe, m).dom, k.t)),
+                  mget=lambda pe, m, k: IntV(z3.Select(_deref(pe, m).val, k.t)))
+
+
+class GhostDict(object):
+    def __repr__(self):
+        return '<ghost dict>'
+
+
+def ghost_dict(eng, name, st):
+    st = st.clone()
+    st.pc += dcat_facts()
+    eng.init_vals['_g_len'] = IntV(GLEN)
+    return ConstV(GhostDict()), st
+
+
+def dict_methods(eng, recv, name, args, kw, st, n):
+    from pyvc.vals import ListV
+    if isinstance(recv, ConstV) and isinstance(recv.py, GhostDict) and name == 'items' and not args:
+        def gen():
+            ix = lambda i: i if z3.is_expr(i) else z3.IntVal(i)
+            yield st, ListV(GLEN, lambda i: TupV([SeqV(KEY(ix(i)), 'str'), IntV(GA[ix(i)])]), tag='items')
+        return gen()
+    return None
+
+
+def dump_in_dict(eng, recv, args, kw, st, n):
+    """the two dump() calls of dump_dict: on a byte string, the PROVED contract dump[bytes] (result == frame(data, b',')); on an element value
+    id, dump(v) IS enc(v) (enc names the function dump computes)"""
+    a = args[0]
+    if isinstance(a, SeqV) and a.kind == 'bytes':
+        yield st, SeqV(z3.Concat(DIG(z3.Length(a.t)), COLON, a.t, COMMA), 'bytes')
+    else:
+        yield st, SeqV(ENC(to_int(a)), 'bytes')
+
+
+def joinlist_havoc(eng, v, name):
+    if name == 'result':
+        n, f = fresh('result.n'), fresh('result.flat', IntSeq)
+        eng.pending_facts.append(n >= 0)
+        return JoinListV(n, f)
+    return None
+
+
+def joinlist_append(eng, ref, cur, x, st, n, store):
+    if isinstance(cur, JoinListV) and isinstance(x, SeqV):
+        yield store(st, JoinListV(cur.n + 1, z3.Concat(cur.flat, x.t))), NONE
+        return
+    raise Unsupported('append of %r to %r' % (x, cur))
+
+
+def joinlist_join(eng, sep, items, st, n):
+    empty = (isinstance(sep, ConstV) and sep.py in (b'', '')) or (isinstance(sep, SeqV) and z3.is_true(z3.simplify(z3.Length(sep.t) == 0)))
+    if not empty:
+        raise Unsupported('join with a separator')
+    yield st, flat_of(type('PE', (), {'st': st})(), items)
+
+
+def map_empty(eng, st):
+    return eng.new_list(st, MapV(z3.K(IntSeq, z3.BoolVal(False)), z3.K(IntSeq, z3.IntVal(0)), z3.IntVal(0)))
+
+
+def map_havoc(eng, v, name):
+    if isinstance(v, MapV):
+        c = fresh(name + '.cnt')
+        eng.pending_facts.append(c >= 0)
+        return MapV(fresh(name + '.dom', DomSort), fresh(name + '.val', ValSort), c)
+    return None
+
+
+def map_set_item(eng, b, cur, i, v, st, line):
+    if not isinstance(cur, MapV):
+        return None
+    if not (isinstance(i, SeqV) and i.kind == 'str'):
+        raise Unsupported('dict key %r' % (i,))
+    s = st.clone()
+    s.heap[(b.id, 'val')] = MapV(z3.Store(cur.dom, i.t, z3.BoolVal(True)), z3.Store(cur.val, i.t, to_int(v)), cur.cnt + 1)
+    return [(s, None)]
+
+
+def parse_in_dict(eng, recv, args, kw, st, n):
+    """the two parse() calls of parse_dict, distinguished by the `encoding=` keyword only the second one passes.
+    key:   the PROVED contract parse[scalars] for type `,`: parse(frame(p, b',') ++ r) == (p, r)
+    value: the INDUCTION HYPOTHESIS: parse(enc(v) ++ r) == (v, r) for the element value v
+    Instance at each call: item i = number of items stored so far; that the argument has the required form is the obligation pre[...]."""
+    extra = args[0]
+    m = eng.deref_list(st.loc['result'], st)
+    i = m.cnt
+    line = getattr(n, 'lineno', None)
+    tail = z3.Concat(ENC(GA[i]), DCAT(i + 1))
+    if 'encoding' not in kw:
+        eng.add_oblig('pre[parse of the key frame @ line %s]' % line, 'pre', st, z3.And(i < GLEN, extra.t == z3.Concat(kframe(i), tail)), line=line)
+        yield st, TupV([SeqV(KEY(i), 'bytes'), SeqV(tail, 'bytes')])
+    else:
+        eng.add_oblig('pre[parse IH @ line %s]' % line, 'pre', st, z3.And(i < GLEN, extra.t == tail), line=line)
+        yield st, TupV([IntV(GA[i]), SeqV(DCAT(i + 1), 'bytes')])
+
+
+DICT_POST = ('mcount(result) == _g_len and forall(0, _g_len, lambda j: mhas(result, key(j)) and mget(result, key(j)) == A(j))')
+
+
+def dict_specs():
+    dd = Spec('dump_dict', (F, 'dump_dict'), params={'data': ghost_dict, 'encoding': 'None'},
+              ensures=[('layout: key frame and value encoding of every item in order, framed', "result == frame(dcat(0), b'}')"),
+                       ('at least three bytes', 'len(result) >= 3')],
+              raises={}, modifies=[], callees={'dump': dump_in_dict}, replay=lambda m, o: replay_tnet(m, o),
+              loops={0: Loop(index='K', invariant=[('the items so far, then the rest, make up the whole', 'flat(result) + dcat(K) == dcat(0)')])},
+              hints=dict(funcs=DICT_FUNCS, value_method=dict_methods, havoc_value=joinlist_havoc, list_append=joinlist_append, join=joinlist_join),
+              note='for every number of items, all 7-bit text keys and all element values')
+    pd = Spec('parse_dict', (F, 'parse_dict'), params={'data': lambda eng, name, st: (SeqV(DCAT(z3.IntVal(0)), 'bytes'), ghost_dict(eng, name, st)[1]),
+                                                      'encoding': 'None'},
+              ensures=[('every item is stored under its key', DICT_POST),
+                       ('nothing else is stored', 'forall_text(lambda s: implies(mhas(result, s), exists(0, _g_len, lambda j: s == key(j))))')],
+              raises={}, modifies=[], callees={'parse': parse_in_dict}, replay=lambda m, o: replay_tnet(m, o),
+              loops={0: Loop(invariant=[('progress', '0 <= mcount(result) <= _g_len and extra == dcat(mcount(result))'),
+                                        ('items so far', 'forall(0, mcount(result), lambda j: mhas(result, key(j)) and mget(result, key(j)) == A(j))'),
+                                        ('nothing else', 'forall_text(lambda s: implies(mhas(result, s), exists(0, mcount(result), lambda j: s == key(j))))')],
+                             variant='_g_len - mcount(result)')},
+              hints=dict(funcs=DICT_FUNCS, empty_dict=map_empty, havoc_value=map_havoc, set_item=map_set_item),
+              note='induction step for dictionaries: given the hypothesis for the values, the item encodings parse to exactly the dictionary; terminates')
+    return [dd, pd, parse_dict_dispatch_spec(), Custom('dcat', dcat_lemmas, note='the derived length fact used as a trigger-safe axiom')]
+
+
+def framed_dict(eng, name, st):
+    """data == dump_dict(ghost dict) ++ rest == digits(|dcat(0)|) ++ b':' ++ dcat(0) ++ b'}' ++ rest (the layout proved for dump_dict)"""
+    st = st.clone()
+    st.pc += dcat_facts()
+    p = DCAT(z3.IntVal(0))
+    n = z3.Length(p)
+    r = z3.Const('_g_rest', IntSeq)
+    t = z3.Unit(z3.IntVal(ord('}')))
+    d = eng.digits(n)
+    st.pc.extend(eng.digit_facts)
+    eng.digit_facts = []
+    for nm, v in (('_g_n', IntV(n)), ('_g_payload', SeqV(p, 'bytes')), ('_g_type', SeqV(t, 'bytes')), ('_g_rest', SeqV(r, 'bytes')), ('_g_len', IntV(GLEN))):
+        eng.init_vals[nm] = v
+    return SeqV(z3.Concat(d, z3.Unit(z3.IntVal(58)), p, t, r), 'bytes'), st
+
+
+def map_result(eng, name, st):
+    c = fresh(name + '.cnt')
+    st = st.clone()
+    st.pc.append(c >= 0)
+    return MapV(fresh(name + '.dom', DomSort), fresh(name + '.val', ValSort), c), st
+
+
+def parse_dict_callee():
+    return Spec('parse_dict', (F, 'parse_dict'), params={'data': 'Bytes', 'encoding': 'Opaque'},
+                requires='data == dcat(0)',
+                ensures=[DICT_POST, 'forall_text(lambda s: implies(mhas(result, s), exists(0, _g_len, lambda j: s == key(j))))'],
+                returns=map_result, hints=dict(funcs=DICT_FUNCS))
+
+
+def parse_dict_dispatch_spec():
+    return Spec('parse[dict]', (F, 'parse'), params={'data': framed_dict},
+                ensures=[('rest: exactly one message is consumed', 'result[1] == _g_rest'),
+                         ('the dictionary parses back to its items', DICT_POST.replace('result', 'result[0]')),
+                         ('and nothing else', 'forall_text(lambda s: implies(mhas(result[0], s), exists(0, _g_len, lambda j: s == key(j))))')],
+                raises={}, modifies=[], callees={'parse_payload': payload_callee(), 'parse_dict': parse_dict_callee()},
+                replay=lambda m, o: replay_tnet(m, o), hints=dict(funcs=DICT_FUNCS),
+                note='parse(dump_dict(D) ++ rest) == (D, rest): composition of the dump_dict layout, the framing lemma and the parse_dict induction step')
+
+
+def dump_dispatch_specs():
+    dl = Spec('dump_list', (F, 'dump_list'), params={'data': 'Opaque', 'encoding': 'Opaque'}, ensures=["result == frame(cat(0), b']')"],
+              returns='Bytes', hints=dict(funcs=LIST_FUNCS))
+    dd = Spec('dump_dict', (F, 'dump_dict'), params={'data': 'Opaque', 'encoding': 'Opaque'}, ensures=["result == frame(dcat(0), b'}')"],
+              returns='Bytes', hints=dict(funcs=DICT_FUNCS))
+    return [Spec('dump[list]', (F, 'dump'), params={'data': ghost_list}, ensures=[('layout', "result == frame(cat(0), b']')"), ('at least three bytes', 'len(result) >= 3')],
+                 raises={}, modifies=[], callees={'dump_list': dl}, replay=lambda m, o: replay_tnet(m, o), hints=dict(funcs=LIST_FUNCS, type_of=ghost_type),
+                 note='dump of a list is dump_list of it (dispatch on the exact type)'),
+            Spec('dump[dict]', (F, 'dump'), params={'data': ghost_dict}, ensures=[('layout', "result == frame(dcat(0), b'}')"), ('at least three bytes', 'len(result) >= 3')],
+                 raises={}, modifies=[], callees={'dump_dict': dd}, replay=lambda m, o: replay_tnet(m, o), hints=dict(funcs=DICT_FUNCS, type_of=ghost_type),
+                 note='dump of a dict is dump_dict of it')]
+
+
+def ghost_type(eng, v):
+    from pyvc.vals import ListV
+    if isinstance(v, ConstV) and isinstance(v.py, GhostDict):
+        return 'dict'
+    if isinstance(v, ListV) and v.tag == 'flist':
+        return 'list'
+    return None
+
+
 def roundtrip(repo):
     """parse(dump(v) ++ rest) == (v, rest): composition of the two contracts above (T2 inverse axioms)"""
     out = []
@@ -111,19 +504,29 @@ def roundtrip(repo):
 
 
 def contracts(repo):
-    return [parse_payload_spec()] + dump_specs() + [parse_spec(), Custom('roundtrip', roundtrip, note='composition lemmas')]
+    return [parse_payload_spec()] + dump_specs() + list_specs() + dict_specs() + dump_dispatch_specs() + [parse_spec(), Custom('roundtrip', roundtrip, note='composition lemmas')]
 
 
-LEVEL_TEXT = ('Deductive proof on the real server/tnetstrings.py for the scalar core: parse_payload extracts exactly payload, type byte and rest from '
+LEVEL_TEXT = ('Deductive proof on the real server/tnetstrings.py. Scalars: parse_payload extracts exactly payload, type byte and rest from '
               'every well-formed frame followed by arbitrary data (framing lemma, decided by cvc5), dump() of int/bool/None/bytes/text has exactly '
               'the layout len:payload,type with the length prefix equal to the payload length, parse() of such a frame returns the value and the '
-              'untouched rest; composed with the decimal-text and utf-8 inverse axioms this is the round trip. Lists, dictionaries, floats and the '
-              'streaming tnet_machine under all chunkings are compared only up to a bound (not counted).')
+              'untouched rest; composed with the decimal-text and utf-8 inverse axioms this is the round trip. Containers: the induction STEP is proved '
+              'on the real dump_list / parse_list / dump_dict / parse_dict and the list/dict branches of dump and parse, for every number of elements: '
+              'given the round-trip hypothesis for the element values (the contract assumed at the recursive parse() calls, each instance premise an '
+              'obligation), the layout of the container is the framed concatenation of the element encodings in order, and parsing it returns exactly '
+              'the elements in order / exactly the items under their keys, consumes the whole payload and terminates (variant). The streaming tnet_machine '
+              'under all chunkings, floats, and concrete nested values are compared only up to a bound (not counted).')
 LEVEL_NOTE = ('T2 axioms: str(n)/"%d"%n/int(text) are inverse and decimal text contains only digits and a leading minus; utf-8 encode/decode inverse. '
-              'dump_list/dump_dict/parse_list/parse_dict (containers) and float are bounded-only; tnet_machine runs through the DFA interpreter (bounded).')
-TECHNIQUE = 'contracts on tnetstrings.parse_payload / dump / parse (scalars), VCs from the real AST, z3 + cvc5 (IndexOf lemma); bounded round trips incl. containers and the streaming machine under all two-way chunkings'
-TRUSTED = ['T2 decimal-text axioms (digits/undigits) and utf-8 inverse pair']
-ASSUMPTIONS = ['float payloads, containers and the streaming parser are only in the bounded tier']
+              'Structural induction over finite values (the step from "holds for all element values" to "holds for the container", proved here, to '
+              '"holds for every finite nesting depth") is the meta-level argument and is not mechanised. enc(v) names the function dump computes '
+              '(dump is deterministic). Dictionary keys: pairwise distinct 7-bit text. float is bounded-only; tnet_machine runs through the DFA interpreter (bounded).')
+TECHNIQUE = ('contracts on tnetstrings.parse_payload / dump / parse (scalars and container dispatch) and loop invariants on dump_dict / parse_list / parse_dict '
+             'with ghost lists and unfolding axioms (induction step for containers), VCs from the real AST, z3 + cvc5; bounded round trips incl. nested '
+             'containers and the streaming machine under all two-way chunkings')
+TRUSTED = ['T2 decimal-text axioms (digits/undigits) and utf-8 inverse pair',
+           'structural induction over finite nested values (meta-level): base cases = scalar contracts, step = container contracts',
+           'dump is a deterministic function of the value (enc), parse of the value it returns is compared by identity of the abstract element id']
+ASSUMPTIONS = ['float payloads and the streaming parser are only in the bounded tier', 'dictionary keys are pairwise distinct 7-bit text (dump_dict encodes keys as ascii)']
 
 
 def values(rng, depth=0):
@@ -248,7 +651,7 @@ def bounded(tier, seed):
 def replay_tnet(model, obligation):
     from cpppo.server import tnetstrings
     rng = random.Random(3)
-    for v in [0, 5, -17, 10 ** 30, True, False, None, b'', b'a:b', b'12:', u'', u'\xe9€', [1, b'x', [None]], {'a': 1, 'b': [True]}]:
+    for v in [0, 5, -17, 10 ** 30, True, False, None, b'', b'a:b', b'12:', u'', u'\xe9€', [1, b'x', [None]], [], [[], [1, 2], b']'], {'a': 1, 'b': [True]}, {}, {'k': {'j': [b'}']}}]:
         for rest in (b'', b'7:', b'0:~'):
             try:
                 enc = tnetstrings.dump(v)
